@@ -162,6 +162,12 @@ def catalog():
     add("linalg", "einsum i,i->i same operand", [(3,)], lambda a: mg.einsum("i,i->i", a, a))
     add("linalg", "einsum optimize", [(2, 3), (3, 2), (2, 2)], lambda a, b, c: mg.einsum("ij,jk,kl->il", a, b, c, optimize=True))
     add("linalg", "multi_matmul", [(2, 3), (3, 2), (2, 2)], lambda a, b, c: mg.multi_matmul([a, b, c]))
+    add("linalg", "multi_matmul 1d last", [(2, 3), (3, 2), (2,)], lambda a, b, c: mg.multi_matmul([a, b, c]))
+    add("linalg", "multi_matmul 1d first", [(3,), (3, 2), (2, 2)], lambda a, b, c: mg.multi_matmul([a, b, c]))
+    add("linalg", "multi_matmul 1d both", [(3,), (3, 2), (2,)], lambda a, b, c: mg.multi_matmul([a, b, c]))
+    add("linalg", "multi_matmul 4 operands", [(2, 3), (3, 2), (2, 4), (4, 2)], lambda a, b, c, d: mg.multi_matmul([a, b, c, d]))
+    add("linalg", "multi_matmul 5 operands 1d last", [(2, 3), (3, 2), (2, 4), (4, 2), (2,)], lambda a, b, c, d, e_: mg.multi_matmul([a, b, c, d, e_]))
+    add("linalg", "multi_matmul 2 operands", [(2, 3), (3, 2)], lambda a, b: mg.multi_matmul([a, b]))
     for ordv in (None, 1, 2, 3, 4.5, 0.5, -1, -2):
         for ax, kd in ((None, False), (0, False), (1, False), (-1, True), (1, True)):
             if ordv is not None and ax is None:
@@ -493,6 +499,107 @@ def run_const(e, seed, variant):
     return {"label": e.label, "family": e.family, "msgs": msgs}
 
 
+def _census():
+    import gc
+    objs = gc.get_objects()
+    n_t = sum(1 for o in objs if issubclass(type(o), mg.Tensor))
+    n_o = sum(1 for o in objs if issubclass(type(o), mg.operation_base.Operation))
+    del objs
+    return n_t, n_o
+
+
+def _release_body(e, seed, owned, kind):
+    """builds the graph on tensors over the caller's arrays (copy=False) through NON-LEAF intermediates, back-propagates, returns nothing:
+    when this function returns every local is gone"""
+    leaves = [mg.tensor(a, copy=False) for a in owned]
+    xs = [t * 1.0 for t in leaves] if kind == 0 else list(leaves)
+    out = e.fn(*xs)
+    if not isinstance(out, mg.Tensor) or out.constant:
+        return "skipped"
+    L = out if out.ndim == 0 else (out * 1.0).sum()
+    if kind == 2:
+        return "dropped-without-backward"
+    L.backward()
+    return "backward"
+
+
+def run_release(e, seed, kind):
+    """C07 / C08 for every operation.  kind 0: operands are intermediates, backward(); kind 1: operands are leaves, backward(); kind 2: the results are
+    dropped without backward().  Afterwards, with the cyclic GC disabled: no Tensor / Operation object survives, every caller array has its original
+    writeable flag, and no live array keeps a positive lock count."""
+    import gc
+    import mygrad._utils.lock_management as _mem
+    reset_global_state()
+    gc.collect()
+    gc.disable()
+    base = _census()
+    owned = [values(s, seed, d, k) for k, (s, d) in enumerate(zip(e.shapes, e.domains))]
+    try:
+        how = _release_body(e, seed, owned, kind)
+    except Exception as ex:
+        how = "raised:" + type(ex).__name__
+    now = _census()
+    msgs = []
+    if how in ("backward", "dropped-without-backward"):
+        if now != base:
+            msgs.append("%d tensor(s) and %d operation(s) are still alive after %s and dropping every reference (cyclic GC disabled)" % (now[0] - base[0], now[1] - base[1], how))
+        for k, a in enumerate(owned):
+            if not a.flags.writeable:
+                msgs.append("caller array %d is still read-only after %s and dropping every reference" % (k, how))
+        live_locked = sum(1 for key, r in _mem._array_tracker.items() if r() is not None and _mem._array_counter.get(key, 0) > 0)
+        if live_locked:
+            msgs.append("%d live array(s) keep a positive lock count at quiescence" % live_locked)
+    gc.collect()
+    return {"label": e.label, "family": e.family, "how": how, "msgs": msgs}
+
+
+def run_retry(e, seed, k):
+    """second pass after an aborted one: operand k is W = 2 * P, shared with a second graph whose backward() clears W; L = <C, f(.., W, ..)>.
+    L.backward() aborts with InvalidBackprop AFTER the operation's own backward ran; W is then re-used and L.backward() is called again:
+    it must raise again, or leave exactly dL/dW of the recorded forward pass in W.grad (operations must not consume per-pass state)"""
+    from mygrad.errors import InvalidBackprop
+    reset_global_state()
+    arrays = [values(s, seed, d, j) for j, (s, d) in enumerate(zip(e.shapes, e.domains))]
+
+    def build():
+        xs = [mg.tensor(a.copy()) for a in arrays]
+        P = mg.tensor(arrays[k] / 2.0)
+        W = 2.0 * P
+        ops = list(xs)
+        ops[k] = W * 1.0          # one operation between W and f: the aborted pass gets through f's own backward before it reaches the cleared W
+        out = e.fn(*ops)
+        return P, W, out
+    P0, W0, out0 = build()
+    if not isinstance(out0, mg.Tensor) or out0.constant:
+        return {"label": e.label, "family": e.family, "outcome": "identity"}
+    rs = np.random.RandomState(seed + 11)
+    C = np.asarray(rs.randn(*out0.shape) if out0.shape else rs.randn(), dtype=out0.dtype) + 1.7
+    (out0 * C).sum().backward()
+    expected = None if W0.grad is None else W0.grad.copy()
+    P, W, out = build()
+    L = (out * C).sum()
+    other = (W * 3.0).sum()
+    other.backward()
+    first = "returned"
+    try:
+        L.backward()
+    except InvalidBackprop:
+        first = "InvalidBackprop"
+    except Exception as ex:
+        return {"label": e.label, "family": e.family, "outcome": "first-pass-raised:" + type(ex).__name__}
+    W2 = W * 1.0          # re-use of the cleared tensor
+    try:
+        L.backward()
+    except InvalidBackprop:
+        return {"label": e.label, "family": e.family, "outcome": "InvalidBackprop-again", "first": first}
+    except Exception as ex:
+        return {"label": e.label, "family": e.family, "outcome": "second-pass-raised:" + type(ex).__name__, "first": first, "msg": str(ex)[:100]}
+    got = W.grad
+    ok = (got is None and expected is None) or (got is not None and expected is not None and got.shape == expected.shape and np.allclose(got, expected, rtol=1e-9, atol=1e-12))
+    return {"label": e.label, "family": e.family, "outcome": "second-pass-exact" if ok else "second-pass-wrong", "first": first,
+            "got": None if got is None else np.asarray(got).ravel()[:6].tolist(), "expected": None if expected is None else np.asarray(expected).ravel()[:6].tolist()}
+
+
 def run_stale(e, seed, k):
     """C09 scenario for every operation: operand k is an intermediate W = 2 * P shared with a second graph; the second graph is
     back-propagated first (which clears W), then the loss through the operation: InvalidBackprop, or exactly the recorded gradient."""
@@ -530,9 +637,22 @@ def run_stale(e, seed, k):
             "got": None if got is None else got.tolist(), "expected": None if expected is None else expected.tolist()}
 
 
+def _warm_up():
+    """numba keeps the frames of the call that triggers its first JIT compilation alive (its dispatcher frame _compile_for_args survives), and with them
+    that call's tensors, operation and locked arrays: compile the jitted helpers of the GRU layer once, on throw-away operands, before anything is counted
+    (recorded as a known finding; it is the first call only -- later calls release everything)"""
+    rs = np.random.RandomState(0)
+    for dt in (np.float64, np.float32):
+        ts = [mg.tensor(rs.randn(2, 1, 2).astype(dt))] + [mg.tensor((rs.randn(*s) * 0.5).astype(dt)) for s in [(2, 2), (2, 2), (2,)] * 3]
+        L.gru(*ts).sum().backward()
+        L.gru(*ts, s0=np.zeros((1, 2), dtype=dt)).sum().backward()
+
+
 def main():
     payload = read_payload()
     E = catalog()
+    if any(t.get("mode") == "release" for t in payload.get("tasks", [])):
+        _warm_up()
     if payload.get("list"):
         emit({"n": len(E), "labels": [e.label for e in E], "families": [e.family for e in E]})
         return
@@ -545,6 +665,10 @@ def main():
         try:
             if t["mode"] == "vjp":
                 out.append(run_vjp(e, t.get("seed", 0), t.get("layout", 0)))
+            elif t["mode"] == "release":
+                out.append(run_release(e, t.get("seed", 0), t.get("kind", 0)))
+            elif t["mode"] == "retry":
+                out.append(run_retry(e, t.get("seed", 0), t.get("operand", 0) % len(e.shapes)))
             elif t["mode"] == "const":
                 out.append(run_const(e, t.get("seed", 0), t.get("variant", 0)))
             elif t["mode"] == "stale":
